@@ -257,6 +257,65 @@ def oracle_epeq(case, impl):
     return None
 
 
+def oracle_svcprov(case, impl):
+    """the HTTPS-record provider: every address of every ipv4hint / ipv6hint parameter of the answer appears among the candidates'
+    bootstrap addresses, in record order, and nothing else does; an unaligned hint or an overflowing alpn string is an error"""
+    spec = case.split(" ")[1]
+    if impl.startswith(("PANIC", "TIMEOUT", "ERR")):
+        return "svcprov did not complete: " + impl[:120]
+    rrs = []
+    if spec != "-":
+        for r in spec.split(";"):
+            pr, ps = r.split(":", 1)
+            params = [] if ps == "-" else [(int(k), b"" if v == "_" else unhex(v)) for k, v in (p.split("=", 1) for p in ps.split(","))]
+            rrs.append((int(pr), params))
+    want_ips, bad = [], False
+    for _pr, params in rrs:
+        for k, v in params:
+            if k == 4:
+                if len(v) % 4:
+                    bad = True
+                want_ips += [bytes(10) + b"\xff\xff" + v[i:i + 4] for i in range(0, len(v) - len(v) % 4, 4)]
+            elif k == 6:
+                if len(v) % 16:
+                    bad = True
+                want_ips += [v[i:i + 16] for i in range(0, len(v) - len(v) % 16, 16)]
+            elif k == 1:
+                off = 0
+                while off < len(v):
+                    l = v[off]
+                    off += 1
+                    if off + l > len(v):
+                        bad = True
+                        break
+                    off += l
+            if bad:
+                break
+        if bad:
+            break
+    if bad:
+        return None if impl == "err" else "a malformed hint / alpn value did not make GetEndpoints fail: " + impl[:100]
+    if impl == "err":
+        return "GetEndpoints failed on a well-formed answer"
+    if not rrs:
+        return None if impl == "none" else "no HTTPS record in the answer but candidates were returned: " + impl[:100]
+    if impl == "none":
+        return "the answer has %d HTTPS record(s) but no candidate was returned" % len(rrs)
+    got = []
+    for e in impl.split(" "):
+        ips = e.split("/")[0][4:]
+        if ips != "-":
+            got += [unhex(x) for x in ips.split(",")]
+    if got != want_ips:
+        return ("the candidates' bootstrap addresses are not, in order, the addresses of the hint parameters of the answer (%d returned, "
+                "%d listed)" % (len(got), len(want_ips)))
+    prios = [p for p, _ in rrs]
+    groups = 1 + sum(1 for a, b in zip(prios, prios[1:]) if b > a)
+    if len(impl.split(" ")) != groups:
+        return ("%d candidate(s) for an answer whose priorities %s rise %d time(s): a record of higher priority value than the one "
+                "before it starts a fallback candidate" % (len(impl.split(" ")), prios, groups - 1))
+    return None
+
 def oracle_srcurl(case, impl):
     """the list provider: a successful fetch returns, position by position, endpoints Equal to the ones the document lists; an
     endpoint Equal to one of the previous successful call's list is that earlier object; a failed fetch returns an error"""
@@ -301,7 +360,8 @@ def _oracle_realep(case, impl):
 
 SPEC = dict(
     lean_module="NV.Props.C08",
-    areas=[dict(name="srcurl", n_quick=1500, n_thorough=30000, shards_thorough=2, oracle=oracle_srcurl, timeout=600),
+    areas=[dict(name="svcprov", n_quick=6000, n_thorough=120000, shards_thorough=2, oracle=oracle_svcprov, timeout=600),
+           dict(name="srcurl", n_quick=1500, n_thorough=30000, shards_thorough=2, oracle=oracle_srcurl, timeout=600),
            dict(name="realep", n_quick=25, n_thorough=400, shards_thorough=2, oracle=_oracle_realep, timeout=900),
            dict(name="epeq", n_quick=20000, n_thorough=400000, shards_thorough=4, oracle=oracle_epeq),
            dict(name="mgr", n_quick=4000, n_thorough=160000, shards_thorough=8,
